@@ -778,6 +778,11 @@ def run(ctx, load):
     ctx.floor('C12.refusal-first', 14)
     check_table_resize_refusal(P, ctx)
     check_refused_constructor(P, ctx)
+    # an index outside a Slice is refused even when the underlying container has an element there (shared with C11)
+    from . import rules_c11
+    Pi = load(None, 'default')
+    ctx.config = 'default'
+    ctx.borrow('C12.slice-index-refusal', 1, lambda: rules_c11.check_slice_get_keeps_position(Pi, ctx))
     check_node_caches(P, ctx)
     # a missing key, at every size including a table whose slots were released (shared with C02 / C03, decided by evaluation there)
     from . import rules_c02, rules_c03
